@@ -53,7 +53,7 @@ fn idx(i: usize) -> Value {
 
 const PROFILES: &[&str] = &[
     "const_lo", "const_hi", "const_rand", "sorted", "dense", "small", "full", "minmax", "outliers", "allbits", "gap", "alt",
-    "arith", "runs", "hi_small", "lo_small",
+    "arith", "runs", "hi_small", "lo_small", "tail_outlier",
 ];
 
 fn rand_in(r: &mut Rng, lo: i128, hi: i128) -> i128 {
@@ -122,6 +122,29 @@ fn gen(profile: &str, n: usize, lo: i128, hi: i128, r: &mut Rng) -> Vec<i128> {
                         _ => rand_in(r, lo + span / 2, hi),
                     };
                 }
+            }
+        }
+        "tail_outlier" => {
+            // unsorted block-structured data: every block of 64 sits around its own base (overall range
+            // wide, in-block offsets tiny); the only large in-block offsets are in the trailing PARTIAL
+            // block (the last n % 64 / n % 128 elements) and in the very last element
+            let step = (span / 64).max(1).min(70_000);
+            for k in 0..n {
+                let blk = (k / 64) as i128;
+                let base = lo + ((blk * 7919) % 61) * step;
+                v.push(clamp(base + rand_in(r, 0, 15)));
+            }
+            if n > 0 {
+                let tail = n % 64;
+                if tail > 1 {
+                    let p = n - 1 - (r.below(tail as u64 - 1) as usize);
+                    v[p] = clamp(v[p] + span / 2);
+                }
+                v[n - 1] = match r.below(3) {
+                    0 => hi,
+                    1 => clamp(lo + span / 2 + rand_in(r, 0, 1000)),
+                    _ => clamp(v[n - 1] + span / 3),
+                };
             }
         }
         "allbits" => {
@@ -1120,6 +1143,16 @@ fn cases(a: &Args, name: &str) -> Vec<(&'static str, i128, i128, &'static str, u
                     continue;
                 }
                 v.push((dom, lo, hi, p, n));
+            }
+            // outliers confined to the trailing partial block: lengths just past a block multiple, above the
+            // 1000-element threshold of the block-based strategy (every constructor, both tiers)
+            if p == "tail_outlier" && fam != "sorted" && !secondary {
+                for &n in &[1029usize, 1100, 2051, 4099] {
+                    v.push((dom, lo, hi, p, n));
+                }
+                if a.thorough() {
+                    v.push((dom, lo, hi, p, 12803));
+                }
             }
             // long inputs (the IntVec strategy switch sits at 10 000 elements / 16 KiB)
             let mut rot = Rng::new(a.seed).derive(&group_of(name)).derive(p).derive(dom);
